@@ -92,9 +92,9 @@ type factUse struct {
 }
 
 type fnSummary struct {
-	Const   map[int]int64        // result i is this constant on every return
-	NonNeg  map[int]bool         // result i >= 0
-	LeLen   map[int]map[int]bool // result i <= len(param j)
+	Const  map[int]int64        // result i is this constant on every return
+	NonNeg map[int]bool         // result i >= 0
+	LeLen  map[int]map[int]bool // result i <= len(param j)
 }
 
 type preCond struct {
@@ -787,4 +787,3 @@ func (b *boundsCtx) analyse(fns []*ssa.Function) []boundResult {
 	}
 	return res
 }
-
